@@ -17,11 +17,14 @@ def discover(prop):
         return None
     return dict(modules=["contracts." + m for m in mods])
 
+from .contract import FRAME_ASSUMPTION
+
 GLOBAL_ASSUMPTIONS = [
     "pyvc's model of the Python subset agrees with CPython (mitigated by the concrete cross-check; not proved)",
     "z3 (and cvc5 where used) are sound",
     "Python ints are mathematical integers (exact); no machine arithmetic is involved in the Python code",
     "container/ADT parameters are instantiated to the constructor shapes enumerated by each contract's input generator; integer leaves are fully symbolic",
+    FRAME_ASSUMPTION,
 ]
 
 DROPPED = ["docstrings", "type annotations", "decorators other than staticmethod/classmethod/property/"
